@@ -236,6 +236,7 @@ var rDecodeResult = &Rule{
 				continue
 			}
 			reg := regionOf(fn)
+			nonNilHere := map[ssa.Value]bool{} // values tested non-nil where the return under inspection stands
 			var okVal func(v ssa.Value, d int) (bool, string)
 			okVal = func(v ssa.Value, d int) (bool, string) {
 				if d > 5 {
@@ -251,6 +252,9 @@ var rDecodeResult = &Rule{
 					return false, "a value of type " + load.TypeName(x.X.Type())
 				case *ssa.Phi:
 					for _, e := range x.Edges {
+						if sx.IsNil(e) && nonNilHere[x] {
+							continue // `var genErr error; if found { genErr = decoder(...) }; if genErr != nil { return genErr }`
+						}
 						if ok, why := okVal(e, d+1); !ok {
 							return false, why
 						}
@@ -293,6 +297,18 @@ var rDecodeResult = &Rule{
 						continue
 					}
 					n++
+					for k := range nonNilHere {
+						delete(nonNilHere, k)
+					}
+					for _, l := range dominatingLits(r.Block()) {
+						if bin, isBin := l.V.(*ssa.BinOp); isBin && ((bin.Op == token.NEQ && !l.Neg) || (bin.Op == token.EQL && l.Neg)) {
+							if sx.IsNil(bin.Y) {
+								nonNilHere[bin.X] = true
+							} else if sx.IsNil(bin.X) {
+								nonNilHere[bin.Y] = true
+							}
+						}
+					}
 					ok, why := okVal(r.Results[0], 0)
 					c.Check(ok, "errbase."+name+": returned value", r.Pos(), "the registered decoder's result or a fresh opaque value",
 						"errbase."+name+" can return "+why+" instead of a layer of its own: the received layer is dropped (or replaced), so type name, mark and annotation of that layer are lost for this process and for the next hop")
@@ -722,6 +738,36 @@ func mustReachAfter(fn *ssa.Function, holds func(l lit) bool, goal func(ssa.Inst
 			}
 		}
 		return false
+	}
+	// the announcement kept in a boolean: where a value that IS the announcement (the call's result, its comparison
+	// with nil) flows into a merge, follow that edge with the value known
+	for _, b := range fn.Blocks {
+		for _, in := range b.Instrs {
+			v, isVal := in.(ssa.Value)
+			if !isVal || !isBoolT(v.Type()) || v.Referrers() == nil {
+				continue
+			}
+			var truth, est bool
+			if holds(lit{V: v, Neg: false}) {
+				truth, est = true, true
+			} else if holds(lit{V: v, Neg: true}) {
+				truth, est = false, true
+			}
+			if !est {
+				continue
+			}
+			for _, r := range *v.Referrers() {
+				ph, isPhi := r.(*ssa.Phi)
+				if !isPhi {
+					continue
+				}
+				for i, e := range ph.Edges {
+					if e == v && reach(ph.Block(), ph.Block().Preds[i], map[ssa.Value]bool{v: truth}, map[*ssa.BasicBlock]bool{}, 0) {
+						return true
+					}
+				}
+			}
+		}
 	}
 	for _, b := range fn.Blocks {
 		if len(b.Instrs) == 0 {
